@@ -154,6 +154,9 @@ func (e *Engine) intrinsic3(name string, args []any) (any, bool) {
 		return SymStr{"(ite " + boolE(args[0]) + " " + strE(args[1]) + " " + strE(args[2]) + ")"}, true
 	case "IfBytes":
 		return BytesV{E: "(ite " + boolE(args[0]) + " " + bytesE(args[1]) + " " + bytesE(args[2]) + ")"}, true
+	case "AppendSpare":
+		e.appendSpare = int(args[0].(int64))
+		return nil, true
 	case "ShortScenario": // clock assumption: all further clock readings are at most d after base
 		e.clockBudget = "(+ " + args[0].(TimeV).E + " " + intE(args[1]) + ")"
 		return nil, true
